@@ -193,8 +193,17 @@ class Constant(Program):
         if self.has_value() or self.type not in constants:
             yield self
         else:
-            for val in constants[self.type]:
+            for val in Constant.distinct_values(self.type, constants[self.type]):
                 yield Constant(self.type, val)
+
+    @staticmethod
+    def distinct_values(type: Type, values: TList[Any]) -> TList[Any]:
+        """
+        Returns the given values without those that give a constant of the given type
+        equal to the constant of a value listed before them.
+        """
+        distinct = dict.fromkeys(Constant(type, val, True) for val in values)
+        return [constant.value for constant in distinct]
 
     def __str__(self) -> str:
         if self.has_value():
